@@ -48,6 +48,21 @@ class WinCollector(Collector):
         self.log.append((self.model.systems.timestep, self.id))
 
 
+class Spawner(System):
+    """always-on system that, at one timestep, registers another system from inside execute() (the window predicate must
+    keep holding for everybody: exactly one run per due timestep, also for the system that does the registering)"""
+
+    def __init__(self, model, log, at, make):
+        super().__init__("spawner", model)
+        self.log, self.at, self.make, self.done = log, at, make, False
+
+    def execute(self):
+        self.log.append((self.model.systems.timestep, self.id))
+        if self.model.systems.timestep == self.at and not self.done:
+            self.done = True
+            self.model.systems.add_system(self.make())
+
+
 def runs(s, t):
     end = MAXSIZE if s.get("end") is None else int(s["end"])
     return int(s["start"]) <= t <= end and (t - int(s["start"])) % int(s["freq"]) == 0
@@ -60,11 +75,50 @@ def play(case, expand):
     for s in specs:
         if int(s["freq"]) < 1:
             raise InvalidCase("frequency")
+    if case.get("spawn"):           # keep the order model simple: everybody else is registered before the spawning timestep
+        specs = [dict(s, reg_at=min(max(0, int(s.get("reg_at", 0))), max(0, int(case["spawn"]["at"])))) for s in specs]
     registered = []
     pending = sorted(range(len(specs)), key=lambda i: (max(0, int(specs[i].get("reg_at", 0))), i))
     T = 0
     expected = []
     info = {"offphase": set(), "ran": set(), "late": False}
+    spawn = case.get("spawn")
+    if spawn:
+        sp_at, sp_prio, sp_spec = max(0, int(spawn["at"])), int(spawn.get("prio", 0)), spawn["spec"]
+        if int(sp_spec["freq"]) < 1:
+            raise InvalidCase("frequency")
+
+        def make():
+            kw = {"start": int(sp_spec["start"]), "frequency": int(sp_spec["freq"]), "priority": sp_prio}
+            if sp_spec.get("end") is not None:
+                kw["end"] = int(sp_spec["end"])
+            return Win("wS", model, log, **kw)
+        model.systems.add_system(Spawner(model, log, sp_at, make))
+
+    reg_time = {}
+
+    def expect_timestep(t):
+        """expected (t, id) entries of one timestep in C01 order: (-priority, registration moment). The spawner is registered
+        first; a harness registration at counter value R happens before the step at R, the spawned system is registered
+        during the step at sp_at. The spawned system's own registration timestep is left open (0 or 1 runs): see sync()."""
+        rows = []
+        if spawn:
+            rows.append(((0, (-1, 0, 0)), "spawner", None))
+            if t > sp_at:
+                rows.append(((-sp_prio, (sp_at, 1, 0)), "wS", sp_spec))
+        for i in registered:
+            rows.append(((0, (reg_time[i], 0, registered.index(i))), f"w{i}", specs[i]))
+        out = []
+        for _, sid, spec in sorted(rows, key=lambda r: r[0]):
+            if spec is None or runs(spec, t):
+                out.append((t, sid))
+                if sid.startswith("w") and sid != "wS":
+                    info["ran"].add(int(sid[1:]))
+            elif sid != "wS":
+                end_ = MAXSIZE if spec.get("end") is None else int(spec["end"])
+                if int(spec["start"]) <= t <= end_:
+                    info["offphase"].add(int(sid[1:]))
+        return out
 
     def register_due():
         while pending and max(0, int(specs[pending[0]].get("reg_at", 0))) <= T:
@@ -75,21 +129,14 @@ def play(case, expand):
                 kw["end"] = int(s["end"])
             model.systems.add_system((WinCollector if s.get("coll") else Win)(f"w{i}", model, log, **kw))
             registered.append(i)
+            reg_time[i] = T
             if T > int(s["start"]):
                 info["late"] = True
 
     def one_step(call):
         nonlocal T
         register_due()
-        for i in registered:
-            s = specs[i]
-            if runs(s, T):
-                expected.append((T, f"w{i}"))
-                info["ran"].add(i)
-            else:
-                end = MAXSIZE if s.get("end") is None else int(s["end"])
-                if int(s["start"]) <= T <= end:
-                    info["offphase"].add(i)
+        expected.extend(expect_timestep(T))
         call()
         T += 1
 
@@ -97,9 +144,17 @@ def play(case, expand):
         if model.timestep != T or model.systems.timestep != T:
             raise Violation("timestep-counter", f"{where}: model.timestep={model.timestep}, systems.timestep={model.systems.timestep}, "
                                                 f"expected {T}")
-        if log != expected:
-            n = next((i for i, (a, b) in enumerate(zip(log, expected)) if a != b), min(len(log), len(expected)))
-            raise Violation("activation", f"{where}: systems {specs}: log diverges at entry {n}: got {log[n:n + 4]}, expected {expected[n:n + 4]}")
+        seen = log
+        if spawn:                                   # the spawned system's registration timestep is left open: 0 or 1 runs, if due
+            at_spawn = [e for e in log if e == (sp_at, "wS")]
+            if len(at_spawn) > (1 if runs(sp_spec, sp_at) else 0):
+                raise Violation("activation", f"{where}: the system registered during timestep {sp_at} ran {len(at_spawn)} times in it "
+                                              f"(window {sp_spec})")
+            seen = [e for e in log if e != (sp_at, "wS")]
+        if seen != expected:
+            n = next((i for i, (a, b) in enumerate(zip(seen, expected)) if a != b), min(len(seen), len(expected)))
+            raise Violation("activation", f"{where}: systems {specs} spawn={spawn}: log diverges at entry {n}: got {seen[n:n + 4]}, "
+                                          f"expected {expected[n:n + 4]}")
 
     for k, op in enumerate(case["script"]):
         where = f"after request {k} {op}"
@@ -118,14 +173,7 @@ def play(case, expand):
                 # due now, and model the rest as registered only afterwards (their reg_at is pushed by the harness)
                 register_due()
                 for _ in range(n):
-                    for i in registered:
-                        if runs(specs[i], T):
-                            expected.append((T, f"w{i}"))
-                            info["ran"].add(i)
-                        else:
-                            end = MAXSIZE if specs[i].get("end") is None else int(specs[i]["end"])
-                            if int(specs[i]["start"]) <= T <= end:
-                                info["offphase"].add(i)
+                    expected.extend(expect_timestep(T))
                     T += 1
                 model.execute(n)
         elif kind == "bad":
@@ -140,6 +188,8 @@ def play(case, expand):
         else:
             raise InvalidCase(op)
         sync(where)
+    if spawn:
+        log = [e for e in log if e != (sp_at, "wS")]
     return log, T, info, specs
 
 
@@ -176,6 +226,8 @@ def run_case(case):
         labels.append("negative-start")
     if any(o["op"] == "bad" for o in case["script"]):
         labels.append("invalid-request")
+    if case.get("spawn"):
+        labels.append("mid-timestep-registration")
     if any(o["op"] == "stepn" for o in case["script"]):
         labels.append("multi-step" + ("" if comparable else "-uncompared"))
     return {"nontrivial": nontrivial, "labels": labels}
@@ -193,7 +245,10 @@ def strategy(tier):
                    st.builds(lambda n: {"op": "stepn", "n": n}, st.integers(1, 5)),
                    st.builds(lambda n: {"op": "stepn", "n": n}, st.integers(2, 5)),
                    st.builds(lambda n: {"op": "bad", "n": n}, st.sampled_from(sorted(BAD))))
-    return st.fixed_dictionaries({"systems": st.lists(system(), min_size=1, max_size=5), "script": sized_lists(op, 1, 25)})
+    spawn = st.one_of(st.none(), st.none(), st.fixed_dictionaries({"at": st.integers(0, 8), "prio": st.sampled_from([-1, 0, 1, 1]),
+                                                                   "spec": system()}))
+    return st.fixed_dictionaries({"systems": st.lists(system(), min_size=1, max_size=5), "script": sized_lists(op, 1, 25),
+                                  "spawn": spawn})
 
 
 def exhaustive(tier):
